@@ -90,6 +90,23 @@ def one_mode_post(arr, n, sh1, len1, sh2, len2, rng, r, P, S_):
           z3.ForAll([a_, c_], z3.Implies(z3.And(0 <= a_, a_ < L2, 0 <= c_, c_ < len2), z3.And(0 <= S_[a_][c_], S_[a_][c_] < sh2[c_])), patterns=[S_[a_][c_]]))]
 
 
+def forward_form(U, p, arr, n, len1, len2, rng, L1, L2, P, S_, extra=(), tag=''):
+    """The layout read forwards: the row at position (nn*L1 + a)*L2 + b IS prefix[a] (+) [nn] (+) suffix[b].  From the decoding form by two
+    quantifier-free arithmetic lemmas (position in range; uniqueness of the mixed-radix representation), used as instances."""
+    nn, a, b, g1, g2, g3, cc = z3.Ints('nn0 a0 b0 g1 g2 g3 cc0')
+    rngs = [0 <= nn, nn < rng, 0 <= a, a < L1, 0 <= b, b < L2]
+    pos = (nn * L1 + a) * L2 + b
+    U.lemma(tag + 'position-(nn*L1+a)*L2+b-lies-below-rng*L1*L2', rngs, z3.And(0 <= pos, pos < rng * L1 * L2), qf=True)
+    uniq_h = [0 <= g1, 0 <= g2, g2 < L1, 0 <= g3, g3 < L2, pos == (g1 * L1 + g2) * L2 + g3]
+    U.lemma(tag + 'mixed-radix-decoding-is-unique', rngs + uniq_h, z3.And(g1 == nn, g2 == a, g3 == b), qf=True)
+    e = arr[pos]
+    inst = z3.substitute(z3.Implies(z3.And(rngs + uniq_h), z3.And(g1 == nn, g2 == a, g3 == b)), (g1, SRow.gn(e)), (g2, SRow.ga(e)), (g3, SRow.gb(e)))
+    hyp = list(p.pc if hasattr(p, 'pc') else p) + list(extra) + rngs + [z3.And(0 <= pos, pos < rng * L1 * L2), inst, n == rng * L1 * L2] + \
+        [g for _, g in row_layout(arr, n, len1, len2, rng, L1, L2, P, S_)]
+    U.post(tag + 'forward-form: the row at position (nn*L1 + a)*L2 + b is prefix[a] (+) [nn] (+) suffix[b]', hyp,
+           z3.Implies(z3.And(0 <= cc, cc < len1 + 1 + len2), SRow.vals(e)[cc] == z3.If(cc < len1, P[a][cc], z3.If(cc == len1, nn, S_[b][cc - len1 - 1]))))
+
+
 def _sizes(arr, n):
     return z3.ForAll([c_], z3.Implies(z3.And(0 <= c_, c_ < n), arr[c_] >= 1), patterns=[arr[c_]])
 
@@ -168,6 +185,7 @@ def _one_mode_unit(U, case, kind):
         U.post('len_1-and-len_2-are-the-numbers-of-prefix-and-suffix-rows (r, or 1 where there is no table)', p, z3.And(l1 == E1, l2 == E2, l1 == L1, l2 == L2))
         for lbl, g in one_mode_post(rs.arr, Z(rs.n), a1, len1, a2, len2, rng, r, P, S_):
             U.post(lbl, p, g)
+        forward_form(U, p, rs.arr, Z(rs.n), len1, len2, rng, L1, L2, P, S_)
         calls = p.ghost.get('lhs_calls', [])
         want = [x for x, nm in ((sh1, names[0]), (sh2, names[1])) if nm is not None]
         U.post('one-Latin-hypercube-table-per-side-that-has-modes: sample_lhs(shape of that side, r, seed) with the seed object itself', p,
@@ -307,6 +325,12 @@ def _sample_tt_unit(U, nkind, skind):
                z3.Implies(z3.And(dt, 0 <= cc, cc < d),
                           ent == z3.If(cc < kk, Block.bpre(B[kk])[ga][cc], z3.If(cc == kk, gn, Block.bsuf(B[kk])[gb][cc - kk - 1]))))
         U.post('every-entry-lies-inside-its-mode', hyp, z3.Implies(z3.And(dt, 0 <= cc, cc < d), z3.And(0 <= ent, ent < narr[cc])))
+        # the same read forwards, for an arbitrary block kk (first the instance of the block facts for that block, then the two arithmetic lemmas)
+        bk = (Block.brows(B[kk]), Block.blen(B[kk]), kk, d - 1 - kk, narr[kk], L1(kk), L2(kk), Block.bpre(B[kk]), Block.bsuf(B[kk]))
+        U.post('block-k: number of rows', hyp + [dk], bk[1] == narr[kk] * L1(kk) * L2(kk))
+        for lbl, g in row_layout(*bk):
+            U.post('block-k: ' + lbl, hyp + [dk], g)
+        forward_form(U, hyp, *bk, extra=[dk], tag='block-k: ')
         # the layout contract that unit svd.svd_incomplete.shapes assumes (its precondition list, with blk[k] = n_k * L1_k)
         blk = lambda k: narr[k] * L1(k)
         U.post('svd_incomplete-layout: idx[0] = 0, idx[d] = number of samples', hyp, z3.And(ix[0] == 0, ix[d] == Z(Rm.shape[0])))
@@ -326,3 +350,50 @@ for _nk, _sk in (('list', 'int'), ('array', 'generator'), ('list', 'none')):
         def u(U):
             _sample_tt_unit(U, nk, sk)
     _mk2()
+
+
+# ----------------------------------------------------------------------------------------------
+# sample.sample_lhs, element level: what call_sample_lhs above states entry by entry.  Unit sample.sample_lhs.counts (contracts/sample.py)
+# proves the same fact in multiset form ("no value outside [0, n_c) is used in column c"); this unit proves it for the elements of the
+# vector that is written to column c: the m // n_c repetitions of arange(n_c) followed by the draw without replacement.
+# (rand.shuffle permutes that column in place - the elements stay the same multiset; model-table fact of ttvc/rnd.py.)
+
+@unit('sample.sample_lhs.bounds', props=('C14',))
+def u_lhs_bounds(U):
+    fn = U.func('sample', 'sample_lhs')
+    st = U.state()
+    d, m = z3.Ints('d m')
+    narr = z3.Const('n', IA)
+
+    def body_end(ex_, s, o, j):
+        cols = s.ghost.get('columns', [])
+        ok = len(cols) == 1 and isinstance(cols[0][1], VArr) and cols[0][1].tag == 'ivec' and cols[0][1].t is not None
+        ex_.oblige(s, 'post', 'each-mode-fills-exactly-one-column-with-one-vector', z3.BoolVal(ok), None, assume=False)
+        if not ok:
+            return
+        col, vec = cols[0]
+        ex_.oblige(s, 'post', 'mode-c-fills-column-c-with-m-entries', z3.And(col == j, Z(vec.shape[0]) == m), None, assume=False)
+        ex_.oblige(s, 'post', 'every-entry-of-column-c-lies-in-[0, n_c)', z3.Implies(z3.And(0 <= t_, t_ < m), z3.And(0 <= vec.t[t_], vec.t[t_] < narr[j])), None,
+                   assume=False)
+
+    def inv(ex_, s, j):
+        I = s.vars['I']
+        return [('result-shape', z3.And(Z(I.shape[0]) == m, Z(I.shape[1]) == d) if isinstance(I, VArr) and I.ndim == 2 else z3.BoolVal(False))]
+
+    for nm, nv in (('array', X.ivec(d, narr)), ('list', None)):
+        ex = U.executor(fn, loops={0: {'inv': inv, 'body_end': body_end}}, lenient=True)
+        ex.opt = True
+        st = U.state()
+        if nv is None:
+            nv = st.alloc(VSeq(narr, d, lambda x: x, tag='int'))
+        st.vars.update(n=nv, m=m, seed=z3.Int('seed'))
+        res = U.run(ex, st, pre=[d >= 1, m >= 1, _sizes(narr, d)])
+        U.cover(f'{nm}: precondition-satisfiable', U.pre)
+        for p, o in res:
+            if o.kind != 'return':
+                U.post('no-exception', p, False)
+                continue
+            I = p.deref(o.value)
+            U.post('integer-array-of-shape-(m,d)', p,
+                   z3.And(Z(I.shape[0]) == m, Z(I.shape[1]) == d, z3.BoolVal(I.dtype == 'i')) if isinstance(I, VArr) and I.ndim == 2 else False)
+        U.canary(f'{nm}: canary-unreachable', U.pre, False)
